@@ -15,8 +15,8 @@
             C20_no_collisions_spec, C20_unordered_lists_only_with_single_subgrader, C20_grouping_contiguous_spec,
             C20_grouping_matches_subgraders, C20_nested_delimiters_distinct_spec
    (c) otherwise a configuration or validation error is raised
-         -> C20_refusal_is_validation_error_partial (all guarded schemas; 21 of the 31 classes); the full claim is
-            REFUTED: C20_refusal_is_validation_error_refuted_{LinearComparer,NumericalGrader,complex_number}
+         -> C20_refusal_is_validation_error (every class, every value; schema level), ConfigError of the cross rules:
+            C20_no_simultaneous_whitelist_and_blacklist, C20_single_answer_list_refused, C20_same_nested_delimiter_refused
    (d) every option present, documented default when omitted
          -> C20_declared_options_present, C20_omitted_option_gets_default, C20_defaults_match_documentation
    (e) answers normalised to the canonical tuple-of-dictionaries form -> C20_ex_answers_normal_form,
@@ -177,39 +177,32 @@ Print Assumptions C20_linear_credit_after_is_positive_int.
 (* ---------------------------------------------------------------------------------------------- *)
 (* the error class of a refusal                                                                     *)
 (* ---------------------------------------------------------------------------------------------- *)
-(* FULL CLAIM (refuted below): forall class sch, forall cfg e, validate_config orc (sch dc) cfg = Raise e ->
-     is_config_or_validation_error e = true.
-   PROVED: the claim for every schema that passes the syntactic check `guarded` (every Range reached only by
-   bool/int/float, every Length/all_unique only by sized values) -- for ALL values -- and that 21 of the 31 class
-   schemas pass it.  MISSING: the 10 classes of `unguarded_classes`; three of the reasons are real defects
-   (witnesses below), the rest is Number-typed options reaching Range with a complex number. *)
+(* FULL: for every class of the library, every value given as configuration, every default comparer: a refusal
+   by validate_config is voluptuous.Error (a validation error).  (Range/Length report unorderable/unsized
+   values as Invalid since fix 9e7ee91; number ranges admit reals only since 49c25d3.)  The ConfigErrors of the
+   cross-option rules are the theorems of the next section. *)
 Theorem C20_guarded_schema_refusal_is_validation_error : forall orc,
   (forall id v e, orc id v = Raise e -> e = EInvalid) ->
   forall s v e, guarded s = true -> validate_config orc s v = Raise e -> e = EVError.
 Proof. exact guarded_refusal_is_validation_error. Qed.
 Print Assumptions C20_guarded_schema_refusal_is_validation_error.
 
-Theorem C20_refusal_is_validation_error_partial : forall orc name tags sch dc cfg e,
+Theorem C20_refusal_is_validation_error : forall orc name tags sch dc cfg e,
   (forall id v e, orc id v = Raise e -> e = EInvalid) ->
-  In (name, tags, sch) Schemas.gen_classes -> existsb (str_eqb name) unguarded_classes = false ->
+  In (name, tags, sch) Schemas.gen_classes ->
   validate_config orc (sch dc) cfg = Raise e -> e = EVError.
-Proof. exact guarded_class_refusal_is_validation_error. Qed.
-Print Assumptions C20_refusal_is_validation_error_partial.
+Proof. exact class_refusal_is_validation_error. Qed.
+Print Assumptions C20_refusal_is_validation_error.
 
-Example C20_refusal_is_validation_error_refuted_LinearComparer :
-  escapes Schemas.gen_schema_LinearComparer (PDict [(PStr (zs "equals"), PStr (zs "a"))]) = true.
-Proof. exact linear_comparer_escapes. Qed.
-Print Assumptions C20_refusal_is_validation_error_refuted_LinearComparer.
-
-Example C20_refusal_is_validation_error_refuted_NumericalGrader :
-  escapes Schemas.gen_schema_NumericalGrader (PDict [(PStr (zs "variables"), PInt 5)]) = true.
-Proof. exact numerical_grader_escapes. Qed.
-Print Assumptions C20_refusal_is_validation_error_refuted_NumericalGrader.
-
-Example C20_refusal_is_validation_error_refuted_complex_number :
-  escapes Schemas.gen_schema_FormulaGrader (PDict [(PStr (zs "tolerance"), a_complex_number)]) = true.
-Proof. exact formula_grader_escapes_complex. Qed.
-Print Assumptions C20_refusal_is_validation_error_refuted_complex_number.
+(* the witnesses of the repaired defects, kept as regression cases *)
+Example C20_ex_repaired_witnesses_are_validation_errors :
+  validate_config doc_orc (Schemas.gen_schema_LinearComparer PNone) (PDict [(PStr (zs "equals"), PStr (zs "a"))]) = Raise EVError
+  /\ validate_config doc_orc (Schemas.gen_schema_NumericalGrader PNone) (PDict [(PStr (zs "variables"), PInt 5)]) = Raise EVError
+  /\ validate_config doc_orc (Schemas.gen_schema_FormulaGrader PNone) (PDict [(PStr (zs "tolerance"), a_complex_number)]) = Raise EVError
+  /\ validate_config doc_orc (Schemas.gen_schema_RealInterval PNone) (PDict [(PStr (zs "start"), a_complex_number)]) = Raise EVError
+  /\ validate_config doc_orc (Schemas.gen_schema_RealInterval PNone) (PList [a_complex_number; PInt 2]) = Raise EVError.
+Proof. exact repaired_witnesses_are_validation_errors. Qed.
+Print Assumptions C20_ex_repaired_witnesses_are_validation_errors.
 
 (* ---------------------------------------------------------------------------------------------- *)
 (* cross-option rules                                                                               *)
